@@ -68,10 +68,13 @@ def version_tuple(prog, an, rep):
 def factory_classes(prog, an):
     f = need_func(an, BR + '.branch_factory')
     loops = []
-    for n in walk_local(f.node, include_root=False):
-        if isinstance(n, ast.For):
+    for n in ast.walk(f.node):
+        # the classes are tried in a loop, or lazily through a generator
+        if isinstance(n, (ast.For, ast.comprehension)):
             it = substitute_locals(f, n.iter)
-            if isinstance(it, (ast.List, ast.Tuple)):
+            if isinstance(it, (ast.List, ast.Tuple)) and it.elts and all(
+                    prog.resolve_expr(f.module, e, f) in prog.classes
+                    for e in it.elts):
                 loops.append((n, it))
     if len(loops) != 1:
         raise AnalysisError('anchor-missing class list in branch_factory')
@@ -107,7 +110,8 @@ def factory_order(prog, an, rep):
     rep.floor('C18 classes tried by branch_factory', len(names), 5)
     rep.evaluated()
     rep.check(set(names) == set(GRAMMAR), R, f.qname + ': the ten kinds',
-              f.where(loop), 'branch_factory tries %s' % names,
+              f.where(loop if isinstance(loop, ast.stmt) else None),
+              'branch_factory tries %s' % names,
               detail=str(names))
     # the first class whose constructor does not raise wins
     c = an.cfg(f)
